@@ -30,3 +30,12 @@ Print Assumptions C06_calendar.
 Example C06_nonvacuous : epoch_of_iso (b "20130524T000000Z") = Some 1369353600%Z /\ epoch_of_iso (b "20230229T000000Z") = None.
 Proof. vm_compute. split; reflexivity. Qed.
 Print Assumptions C06_nonvacuous.
+
+(* exactly: a presigned URL is accepted if and only if all of the above hold together with the two shape conditions the
+   code checks first (ASCII X-Amz-SignedHeaders, a 64-digit lower-case hexadecimal X-Amz-Signature) and a well-formed
+   x-amz-content-sha256 header when one is present; no streaming seed is ever produced *)
+Theorem C06_presigned_accept_iff : forall H auth epoch_of r now_ns ak region service seed,
+  v4_presigned H auth epoch_of r now_ns = Accept ak region service seed <->
+  presigned_accept_exact H auth epoch_of r now_ns ak region service seed.
+Proof. exact presigned_accept_iff. Qed.
+Print Assumptions C06_presigned_accept_iff.
